@@ -12,16 +12,17 @@ SOURCES = ['silk/PLC.c', 'silk/PLC.h', 'silk/CNG.c', 'silk/decode_frame.c', 'sil
 REQUIRED_THEOREMS = ['OpusProps.C09SilkPlc.' + t for t in (
     'glue_identity_when_not_lost', 'glue_identity_when_quieter', 'glue_flags', 'glue_output_int16', 'glue_damped_when_gain_le_one',
     'glue_gain_range', 'glue_gain_above_one_counterexample', 'conceal_gain_decreasing', 'conceal_output_int16',
-    'conceal_total_partial', 'ltp_limit_counterexample',
+    'conceal_total_partial', 'ltp_limit_counterexample', 'exDec_ok', 'plc_inv_reset', 'plc_inv_frame', 'plc_inv_history',
+    'conceal_gain_after_n', 'cng_output_int16',
 )]
 UNPROVED = [
-    'plc_state_invariant: pitchL_Q8 in (0, 18 ms], LTPCoef int16 with zero side taps, prevLTP_scale in [0, 2^14], rand_scale in [0, 32767] '
-    'preserved by silk_PLC_update and silk_PLC_conceal for every history (only the gain part — conceal_gain_decreasing — is proved)',
-    'conceal_total at full strength: in-bounds-ness of every array read of the value model (the model reads with a total accessor); '
-    'totality of silk_CNG (NLSF2A never aborts on the smoothed NLSFs)',
+    'conceal_total at full strength: in-bounds-ness of every array read of the value model (the model reads with a total accessor; '
+    'that no assert fires under the invariant IS proved: plc_inv_frame); totality of silk_CNG (NLSF2A never aborts on '
+    'the smoothed NLSFs), CNG gain smoothing bound',
     'glue_gain_bound: the sharp numeric bounds gain_Q16 <= 65952 for conc_energy >= 64 and <= 1044800 otherwise (only 0 <= gain_Q16 <= 1044800 is proved)',
-    'first_lost_rand_scale: rand_scale_Q14 <= 2^14 after an unvoiced first lost frame and <= 2^14 + |negative tap sum| after a voiced one',
-    'attenuation-table product bound of the per-frame gain after n lost frames (follows from conceal_gain_decreasing by induction; not stated)',
+    'first_lost_rand_scale: rand_scale_Q14 <= 2^14 after an unvoiced first lost frame and <= 2^14 + |negative tap sum| after a voiced one '
+    '(proved: [0, 32767] always, PlcInv)',
+    'geometric bound for the harmonic taps (0.95^n from HARM_ATT_Q15[1]); for rand_scale it is conceal_gain_after_n',
 ]
 RULE = ('every call of silk_PLC (lost and received), silk_CNG and silk_PLC_glue_frames that real opus decoders make while decoding '
         'real encoder streams (SILK-only NB/MB/WB and hybrid, 10/20/40/60 ms, mono/stereo, DTX, in-band FEC, voiced / noise / silence / '
@@ -43,7 +44,7 @@ TECHNIQUE = ('Lean 4 value model (unbounded Int with explicit wrap16/wrap32/sat1
 
 
 def _n(ctx):
-    return 24 if ctx.quick else 400
+    return 24 if ctx.quick else 250
 
 
 def ties(ctx):
